@@ -1,148 +1,452 @@
 """Contracts for py_stringsimjoin/filter/filter_utils.py  (arithmetic core: A1-A4, A6).
 
 For every measure the four formulas are proved, in the float model of pyvc/fp.py,
-to be *safe*: whenever two token sets of sizes (n, m) with overlap o satisfy the
+to be *safe*: whenever two token sets of sizes (a, b) with overlap o satisfy the
 threshold (raw double and 4-decimal rounded, C01's `satisfies`), the size window,
 the prefix length and the required overlap computed by the real code admit them.
 The quantification over o and the other size is universal (skolemised when
-proving), sizes range over [0, 2^31], thresholds over all reals in the valid range.
+proving); sizes range over [0, 2^31], thresholds over all reals of the valid range.
+
+Call sites see `result == lb_M(x, t)` etc. (the formulas are deterministic functions
+of their arguments); the universally quantified safety theorems proved here are
+re-stated for callers in contracts/theorems.py, keyed to the obligations below.
 """
 import collections
+from fractions import Fraction
 import z3
 from pyvc.types import *  # noqa
-from pyvc.values import V, vstr, fresh_name
+from pyvc.values import V, vstr, vint, fresh_name
 from pyvc.contract import Case, LoopSpec, ObjSpec, register
 from pyvc import fp as FP
 from pyvc import spec as S
-from pyvc.lemmas import inst
+from pyvc.lemmas import inst, TLOW
 
 Q = 'py_stringsimjoin.filter.filter_utils.'
 TOK = ObjSpec('Tokenizer', qval=INT, return_set=BOOL)
-EPS1 = 1 + FP.EPS2            # 1 + 2^-52
 OD = collections.OrderedDict
+SETM = S.SET_MEASURES
 
 
 def R_(x):
-    return z3.ToReal(x)
+    return z3.ToReal(x) if z3.is_int(x) else x
 
 
-def sim_hints(M, o, n, m, t, sv):
-    """Consequence of  simval_M(o,n,m) >= t  in product form, derived with lemma
-    instances.  sv = raw float-model value of the quotient expression.
-    Returns (list of lemma instances, dict of useful terms)."""
-    hs = []
-    ro, rn, rm = R_(o), R_(n), R_(m)
-    if M == 'JACCARD':
-        u = R_(n + m - o)
-        # sv = fl(q), q*u = o ; sv >= t  ==>  t*u <= (1+eps)*o
-        q = quot_of(sv)
-        hs += [inst('mul_mono_scaled', t, q, EPS1, u),
-               inst('mul_mono_r', t, rn, u), inst('mul_mono_r', t, rm, u),
-               inst('mul_nonneg', t, rn), inst('mul_nonneg', t, rm), inst('mul_nonneg', t, u)]
-    return hs
-
-
-_quot = {}
-
-
-def quot_of(sv):
-    return _quot[sv.get_id()]
-
-
-class _Arith(Case):
-    """Common shape: measure fixed, sizes and threshold symbolic."""
-    M = None
-    thr_ty = FLOAT
-
-    def valid_threshold(self, t):
-        if self.M in S.SET_MEASURES:
-            return z3.And(t > 0, t <= 1)
-        if self.M == 'OVERLAP':
-            return t > 0
-        return t >= 0
+def rv(x):
+    return z3.RealVal(Fraction(x))
 
 
 def size_ok(n):
     return z3.And(n >= 0, n <= S.MAXTOK)
 
 
-# =============================================================================
-# get_prefix_length
-class PrefixLen(_Arith):
-    returns = INT
+def valid_threshold(M, t):
+    if M in SETM:
+        return z3.And(t > 0, t <= 1)
+    if M == 'OVERLAP':
+        return t > 0
+    return t >= 0
 
-    def __init__(self, M, thr_ty=FLOAT):
+
+# -----------------------------------------------------------------------------
+# lemma instances (hints).  `log` is the float log of the path being proved; code-side
+# intermediate values are looked up structurally (log.find), never by position.
+
+def sim_instances(M, t, o, a, b, tm):
+    """Instances shared by all formulas of measure M (none needed beyond the big lemmas,
+    except the cosine step)."""
+    if M == 'COSINE':
+        return [inst('cos_step', t, tm['qs'], o, a, b, tm['Sa'], tm['Sb'], tm['sa'], tm['sb'], tm['d']),
+                inst('mul_lower', tm['sa'], tm['sb'], rv(Fraction(1, 2)), rv(Fraction(1, 2))),
+                inst('sqrt_lower', tm['Sa'], R_(a), rv(1)), inst('sqrt_lower', tm['Sb'], R_(b), rv(1))]
+    return []
+
+
+def low_instances(M, log, t, o, a, b, tm, x):
+    """lower bound / prefix length called with size x (x is a or b): the product P fed into
+    round/ceil satisfies P <= o*(1+16e); for t < TLOW, P is negligible."""
+    hs = []
+    rx = R_(x)
+    B31 = rv(2 ** 31)
+    if M == 'JACCARD':
+        P = FP.exact_mul(t, rx)
+        hs += [inst('jac_low', t, tm['qs'], o, a, b, x),
+               inst('mul_upper', t, rx, TLOW, B31)]
+    elif M == 'DICE':
+        w = log.find('sub', rv(2), t)
+        gop = w and log.find('div', t, w.r)
+        if not gop:
+            return None
+        P = FP.exact_mul(gop.r, rx)
+        hs += [inst('dice_low', t, tm['qs'], o, a, b, x, w.r, gop.e, gop.r),
+               inst('quot_lower', gop.e, w.r, t, rv(3)),                    # normal range: gq >= t/3
+               inst('quot_upper', gop.e, w.r, t, rv(Fraction(1, 2))),       # tiny t: gq <= 2t
+               inst('mul_upper', gop.r, rx, rv(Fraction(1, 2 ** 490)), B31)]
+    elif M == 'COSINE':
+        t2 = log.find('mul', t, t)
+        if not t2:
+            return None
+        P = FP.exact_mul(t2.r, rx)
+        hs += [inst('cos_low', t, o, a, b, tm['Sa'], tm['Sb'], x, t2.r),
+               inst('mul_lower', t, t, TLOW, TLOW),
+               inst('mul_upper', t, t, TLOW, TLOW), inst('mul_upper', t, t, rv(1), rv(1)),
+               inst('mul_upper', t2.r, rx, rv(Fraction(1, 2 ** 990)), B31)]
+    hs += [inst('mul_nonneg', P.arg(0), P.arg(1))] if z3.is_app(P) and P.decl().eq(FP.rmul) else []
+    return hs
+
+
+def ub_instances(M, log, t, o, a, b, tm, x, y):
+    """upper bound called with size x; y is the other size."""
+    hs = []
+    rx, ry = R_(x), R_(y)
+    if M == 'JACCARD':
+        q = log.find('div', rx, t)
+        if not q:
+            return None
+        hs += [inst('jac_ub', t, tm['qs'], o, a, b, x, y, q.e),
+               inst('quot_lower', q.e, t, rx, rv(1)),                # q2 >= x  (normal range)
+               inst('quot_lower', q.e, t, rx, TLOW)]                  # tiny t: q2 >= x * 2^500
+    elif M == 'DICE':
+        w = log.find('sub', rv(2), t)
+        h = w and log.find('div', w.r, t)
+        if not h:
+            return None
+        P = FP.exact_mul(h.r, rx)
+        hs += [inst('dice_ub', t, tm['qs'], o, a, b, x, y, w.r, h.e, h.r),
+               inst('quot_lower', h.e, t, w.r, rv(1)),
+               inst('quot_lower', h.e, t, w.r, TLOW),
+               inst('mul_lower', h.r, rx, rv(2 ** 33), rv(1)),
+               inst('mul_nonneg', h.r, rx)]
+    elif M == 'COSINE':
+        t2 = log.find('mul', t, t)
+        q = t2 and log.find('div', rx, t2.r)
+        if not q:
+            return None
+        hs += [inst('cos_ub', t, o, a, b, tm['Sa'], tm['Sb'], x, y, t2.r, q.e),
+               inst('mul_lower', t, t, TLOW, TLOW), inst('mul_upper', t, t, rv(1), rv(1)),
+               inst('mul_upper', t, t, TLOW, TLOW), inst('mul_nonneg', t, t),
+               inst('quot_lower', q.e, t2.r, rx, rv(2)),
+               inst('quot_lower', q.e, t2.r, rx, rv(Fraction(1, 2 ** 990)))]
+    return hs
+
+
+def othr_instances(M, log, t, o, a, b, tm):
+    hs = []
+    L = R_(a + b)
+    B32 = rv(2 ** 32)
+    if M == 'JACCARD':
+        w = log.find('add', rv(1), t)
+        g = w and log.find('div', t, w.r)
+        if not g:
+            return None
+        hs += [inst('jac_othr', t, tm['qs'], o, a, b, w.r, g.e, g.r),
+               inst('quot_lower', g.e, w.r, t, rv(3)),
+               inst('quot_upper', g.e, w.r, t, rv(Fraction(1, 2))),
+               inst('mul_upper', g.r, L, rv(Fraction(1, 2 ** 490)), B32),
+               inst('mul_nonneg', g.r, L)]
+    elif M == 'DICE':
+        hf = log.find('div', t, rv(2))
+        if not hf:
+            return None
+        hs += [inst('dice_othr', t, tm['qs'], o, a, b, hf.r),
+               inst('mul_upper', hf.r, L, rv(Fraction(1, 2 ** 490)), B32),
+               inst('mul_nonneg', hf.r, L)]
+    elif M == 'COSINE':
+        ra, rb = R_(a), R_(b)
+        im = log.find('imul', ra, rb)
+        flr = im and log.find('i2f', im.r)
+        sq = flr and log.find('sqrt', flr.r)
+        if not sq:
+            return None
+        hs += [inst('cos_othr', t, o, a, b, tm['Sa'], tm['Sb'], flr.r, sq.e, sq.r),
+               inst('mul_lower', ra, rb, rv(1), rv(1)),
+               inst('mul_upper', ra, rb, rv(2 ** 31), rv(2 ** 31)),
+               inst('sqrt_lower', sq.e, flr.r, rv(Fraction(1, 2))),
+               inst('sqrt_upper', sq.e, flr.r, rv(2 ** 32)),
+               inst('mul_upper', t, sq.r, TLOW, rv(2 ** 33)),
+               inst('mul_upper', t, sq.r, rv(1), rv(2 ** 33)),
+               inst('mul_nonneg', t, sq.r)]
+    return hs
+
+
+class _Arith(Case):
+    returns = INT
+    M = None
+    which = None
+
+    def setup_common(self, c, sizes):
+        """Magnitude facts every float operation of the formulas needs for its no-overflow
+        obligation and for the |e| <= 2^33 side condition of the absolute-error fact."""
+        t = c['threshold']
+        hs = []
+        if self.M in SETM:
+            for n in sizes:
+                rn = R_(n)
+                hs += [inst('mul_le_right', t, rn), inst('mul_nonneg', t, rn)]
+            hs += [inst('mul_upper', t, t, rv(1), rv(1)), inst('mul_nonneg', t, t)]
+        return hs
+
+
+def _required(c, M, order, n, t, body):
+    """forall o, m: required_M(o, (n,m) in the given order, t) ==> body(o, m, a, b, tm)"""
+    def f(o, m):
+        a, b = (n, m) if order == 'nm' else (m, n)
+        prem, s, tm = S.required_sizes(c.fp, M, o, a, b, t)
+        hs, goal = body(o, m, a, b, tm)
+        if hs is None:
+            c.ex.notes.append('hint lookup failed in %s/%s: the code no longer performs the expected '
+                              'float operation; proof attempted without lemma instances'
+                              % (c.ex.qualname, c.case.name))
+            hs = []
+        c.extra.extend(sim_instances(M, t, o, a, b, tm) + hs)
+        return z3.Implies(prem, goal)
+    return c.forall([('o', S.I), ('m', S.I)], f)
+
+
+# =============================================================================
+class SizeLowerBound(_Arith):
+    def __init__(self, M, thr_ty=None):
         self.M = M
-        self.thr_ty = thr_ty
-        self.name = M + ('' if (thr_ty == FLOAT) == (M in S.SET_MEASURES) else '-' + type(thr_ty).__name__)
-        self.params = OD([('num_tokens', INT), ('sim_measure_type', vstr(M)),
-                          ('threshold', thr_ty), ('tokenizer', TOK)])
+        self.thr_ty = thr_ty or (FLOAT if M in SETM else INT)
+        self.name = M + ('' if thr_ty is None else '-thr-' + type(thr_ty).__name__)
+        self.returns = INT if (M in SETM or self.thr_ty == INT) else FLOAT
+        self.params = OD([('num_tokens', INT), ('sim_measure_type', vstr(M)), ('threshold', self.thr_ty)])
 
     def requires(self, c):
-        n, t = c['num_tokens'], c['threshold']
-        t = R_(t) if z3.is_int(t) else t
-        r = [('sizes', size_ok(n)), ('threshold', self.valid_threshold(t))]
+        return [('sizes', size_ok(c['num_tokens'])), ('threshold', valid_threshold(self.M, R_(c['threshold'])))]
+
+    def setup(self, c):
+        return self.setup_common(c, [c['num_tokens']])
+
+    def ensures(self, c, res):
+        x, t, M = c['num_tokens'], c['threshold'], self.M
+        out = []
+        if M in SETM:
+            if c.proving:
+                c.extra.append(res.t == S.lbnd[M](x, t))
+                c.extra.extend(low_instances_range(M, c.fp, t, x))
+            else:
+                out.append(('defn', res.t == S.lbnd[M](x, t)))
+            out.append(('range', z3.And(res.t >= 0, res.t <= x)))
+            if c.proving:
+                for order in ('nm', 'mn'):
+                    out.append(('admits-required-' + order, _required(
+                        c, M, order, x, t,
+                        lambda o, m, a, b, tm: (low_instances(M, c.fp, t, o, a, b, tm, x), res.t <= o))))
+        elif M == 'OVERLAP':
+            out.append(('value', R_(res.t) == R_(t)))
+        elif M == 'EDIT_DISTANCE':
+            out.append(('value', R_(res.t) == R_(x) - R_(t)) if self.thr_ty == INT else
+                       ('value-approx', z3.And(res.t <= R_(x) - t + FP.DELTA, res.t >= R_(x) - t - FP.DELTA)))
+        return out
+
+
+def low_instances_range(M, log, t, x):
+    """instances for the unconditional range facts (result within [0, x])."""
+    rx = R_(x)
+    if M == 'DICE':
+        w = log.find('sub', rv(2), t)
+        g = w and log.find('div', t, w.r)
+        if not g:
+            return []
+        # g = fl(t / fl(2-t)) <= 1 (+ulps): t <= w*(1+e) since w >= (2-t)(1-e) >= t ...
+        return [inst('quot_upper', g.e, w.r, t, rv(Fraction(999999, 1000000))),
+                inst('mul_upper', g.r, rx, rv(Fraction(1000002, 1000000)), rv(2 ** 31)),
+                inst('mul_nonneg', g.r, rx), inst('dice_g_le_one', t, w.r, g.e, g.r, rx)]
+    if M == 'COSINE':
+        t2 = log.find('mul', t, t)
+        if not t2:
+            return []
+        return [inst('mul_le_right', t2.r, rx), inst('mul_nonneg', t2.r, rx),
+                inst('mul_upper', t2.r, rx, rv(Fraction(1000001, 1000000)), rv(2 ** 31))]
+    return []
+
+
+# =============================================================================
+class SizeUpperBound(_Arith):
+    def __init__(self, M, thr_ty=None):
+        self.M = M
+        self.thr_ty = thr_ty or (FLOAT if M in SETM else INT)
+        self.name = M + ('' if thr_ty is None else '-thr-' + type(thr_ty).__name__)
+        self.returns = INT if (M in SETM or self.thr_ty == INT or M == 'OVERLAP') else FLOAT
+        self.params = OD([('num_tokens', INT), ('sim_measure_type', vstr(M)), ('threshold', self.thr_ty)])
+
+    def requires(self, c):
+        return [('sizes', size_ok(c['num_tokens'])), ('threshold', valid_threshold(self.M, R_(c['threshold'])))]
+
+    def setup(self, c):
+        return self.setup_common(c, [c['num_tokens']])
+
+    def ensures(self, c, res):
+        x, t, M = c['num_tokens'], c['threshold'], self.M
+        out = []
+        if M in SETM:
+            if c.proving:
+                c.extra.append(res.t == S.ubnd[M](x, t))
+            else:
+                out.append(('defn', res.t == S.ubnd[M](x, t)))
+            out.append(('range', res.t >= x))
+            if c.proving:
+                c.extra.extend(ub_range_instances(M, c.fp, t, x))
+                for order in ('nm', 'mn'):
+                    out.append(('admits-required-' + order, _required(
+                        c, M, order, x, t,
+                        lambda o, m, a, b, tm: (ub_instances(M, c.fp, t, o, a, b, tm, x, m), m <= res.t))))
+        elif M == 'OVERLAP':
+            out.append(('value', res.t == 2 ** 63 - 1))
+        elif M == 'EDIT_DISTANCE':
+            out.append(('value', R_(res.t) == R_(x) + R_(t)) if self.thr_ty == INT else
+                       ('value-approx', z3.And(res.t <= R_(x) + t + FP.DELTA, res.t >= R_(x) + t - FP.DELTA)))
+        return out
+
+
+def ub_range_instances(M, log, t, x):
+    rx = R_(x)
+    if M == 'JACCARD':
+        q = log.find('div', rx, t)
+        return [inst('quot_lower', q.e, t, rx, rv(1))] if q else []
+    if M == 'DICE':
+        w = log.find('sub', rv(2), t)
+        h = w and log.find('div', w.r, t)
+        if not h:
+            return []
+        return [inst('quot_lower', h.e, t, w.r, rv(1)), inst('mul_nonneg', h.r, rx),
+                inst('mul_lower_scaled', h.r, rx, rv(1))]
+    if M == 'COSINE':
+        t2 = log.find('mul', t, t)
+        q = t2 and log.find('div', rx, t2.r)
+        if not q:
+            return []
+        return [inst('quot_lower', q.e, t2.r, rx, rv(1)),
+                inst('mul_upper', t, t, rv(1), rv(1)), inst('mul_nonneg', t, t)]
+    return []
+
+
+# =============================================================================
+class PrefixLen(_Arith):
+    def __init__(self, M, thr_ty=None):
+        self.M = M
+        self.thr_ty = thr_ty or (FLOAT if M in SETM else INT)
+        self.name = M + ('' if thr_ty is None else '-thr-' + type(thr_ty).__name__)
+        self.returns = INT if (M in SETM or self.thr_ty == INT) else FLOAT
+        self.params = OD([('num_tokens', INT), ('sim_measure_type', vstr(M)),
+                          ('threshold', self.thr_ty), ('tokenizer', TOK)])
+
+    def requires(self, c):
+        r = [('sizes', size_ok(c['num_tokens'])), ('threshold', valid_threshold(self.M, R_(c['threshold'])))]
         if self.M == 'EDIT_DISTANCE':
             r.append(('qval', c.f(c.p('tokenizer'), 'qval') >= 1))
         return r
 
     def setup(self, c):
-        n, t = c['num_tokens'], c['threshold']
-        if self.M == 'JACCARD':
-            return [inst('mul_le_right', t, R_(n)), inst('mul_nonneg', t, R_(n))]
-        return []
+        return self.setup_common(c, [c['num_tokens']])
 
     def ensures(self, c, res):
-        n, t = c['num_tokens'], c['threshold']
-        M = self.M
+        x, t, M = c['num_tokens'], c['threshold'], self.M
         out = []
-        if M in S.SET_MEASURES:
+        if M in SETM:
             if c.proving:
-                c.extra.append(res.t == S.plen[M](n, t))       # definition of the spec function
+                c.extra.append(res.t == S.plen[M](x, t))
+                c.extra.extend(low_instances_range(M, c.fp, t, x))
             else:
-                out.append(('defn', res.t == S.plen[M](n, t)))
-            out.append(('range', z3.If(n == 0, res.t == 0, z3.And(res.t >= 1, res.t <= n + 1))))
+                out.append(('defn', res.t == S.plen[M](x, t)))
+            out.append(('range', z3.If(x == 0, res.t == 0, z3.And(res.t >= 1, res.t <= x + 1))))
             if c.proving:
                 for order in ('nm', 'mn'):
-                    def body(o, m, order=order):
-                        a, b = (n, m) if order == 'nm' else (m, n)
-                        prem, s, sv = S.required_sizes(c.fp, M, o, a, b, t)
-                        c.extra.extend(arith_hints(M, 'plen', c.fp, o, a, b, t, sv, n))
-                        return z3.Implies(prem, n - res.t + 1 <= o)
-                    out.append(('prefix-condition-' + order,
-                                c.forall([('o', S.I), ('m', S.I)], body)))
+                    out.append(('prefix-condition-' + order, _required(
+                        c, M, order, x, t,
+                        lambda o, m, a, b, tm: (low_instances(M, c.fp, t, o, a, b, tm, x), x - res.t + 1 <= o))))
         elif M == 'OVERLAP':
-            out.append(('value', res.t == z3.If(n - t + 1 >= 0, n - t + 1, 0)))
-            out.append(('prefix-condition', c.forall([('o', S.I)], lambda o: z3.Implies(
-                z3.And(o >= t, o <= n), z3.And(n - res.t + 1 <= o, res.t >= 1)))))
+            if self.thr_ty == INT:
+                out.append(('value', res.t == z3.If(x == 0, 0, z3.If(x - t + 1 >= 0, x - t + 1, 0))))
+                out.append(('prefix-condition', c.forall([('o', S.I)], lambda o: z3.Implies(
+                    z3.And(o >= t, o <= x, x >= 1), z3.And(x - res.t + 1 <= o, res.t >= 1)))))
         elif M == 'EDIT_DISTANCE':
-            q = c.f(c.p('tokenizer'), 'qval')
-            out.append(('value', res.t == z3.If(n == 0, 0, z3.If(q * t + 1 <= n, q * t + 1, n))))
+            if self.thr_ty == INT:
+                q = c.f(c.p('tokenizer'), 'qval')
+                qt = FP.int_mul(q, t)
+                out.append(('value', res.t == z3.If(x == 0, 0, z3.If(qt + 1 <= x, qt + 1, x))))
         return out
 
 
-def arith_hints(M, which, log, o, n, m, t, sv, x):
-    """Lemma instances for measure M; (o, n, m) are the sizes in the order the similarity is
-    evaluated, x is the size the function under proof was called with."""
-    hs = []
-    ro, rn, rm, rx = R_(o), R_(n), R_(m), R_(x)
+# =============================================================================
+class OverlapThreshold(_Arith):
+    def __init__(self, M, thr_ty=None):
+        self.M = M
+        self.thr_ty = thr_ty or (FLOAT if M in SETM else INT)
+        self.name = M + ('' if thr_ty is None else '-thr-' + type(thr_ty).__name__)
+        self.returns = INT if (M in SETM or self.thr_ty == INT) else FLOAT
+        self.params = OD([('l_num_tokens', INT), ('r_num_tokens', INT), ('sim_measure_type', vstr(M)),
+                          ('threshold', self.thr_ty), ('tokenizer', TOK)])
+
+    def requires(self, c):
+        r = [('sizes', z3.And(size_ok(c['l_num_tokens']), size_ok(c['r_num_tokens']))),
+             ('threshold', valid_threshold(self.M, R_(c['threshold'])))]
+        if self.M == 'EDIT_DISTANCE':
+            r.append(('qval', c.f(c.p('tokenizer'), 'qval') >= 1))
+        return r
+
+    def setup(self, c):
+        l, r = c['l_num_tokens'], c['r_num_tokens']
+        hs = self.setup_common(c, [l, r, l + r])
+        return hs
+
+    def ensures(self, c, res):
+        l, r, t, M = c['l_num_tokens'], c['r_num_tokens'], c['threshold'], self.M
+        out = []
+        if M in SETM:
+            if c.proving:
+                c.extra.append(res.t == S.othr[M](l, r, t))
+                c.extra.extend(othr_range_instances(M, c.fp, t, l, r))
+            else:
+                out.append(('defn', res.t == S.othr[M](l, r, t)))
+            out.append(('range', res.t >= 0))
+            if c.proving:
+                def body(o):
+                    prem, s, tm = S.required_sizes(c.fp, M, o, l, r, t)
+                    hs = othr_instances(M, c.fp, t, o, l, r, tm)
+                    if hs is None:
+                        c.ex.notes.append('hint lookup failed in get_overlap_threshold/%s' % M)
+                        hs = []
+                    c.extra.extend(sim_instances(M, t, o, l, r, tm) + hs)
+                    return z3.Implies(prem, res.t <= o)
+                out.append(('admits-required', c.forall([('o', S.I)], body)))
+        elif M == 'OVERLAP':
+            out.append(('value', R_(res.t) == R_(t)))
+        elif M == 'EDIT_DISTANCE':
+            if self.thr_ty == INT:
+                q = c.f(c.p('tokenizer'), 'qval')
+                mx = z3.If(l >= r, l, r)
+                out.append(('value', res.t == mx - FP.int_mul(q, t)))
+        return out
+
+
+def othr_range_instances(M, log, t, l, r):
+    L = R_(l + r)
     if M == 'JACCARD':
-        u = R_(n + m - o)
-        q = find_quot(log, sv)
-        hs += [inst('mul_mono_scaled', t, q, EPS1, u),        # t <= (1+e) q  ==> t*u <= (1+e) q*u
-               inst('mul_mono_r', t, rx, u),                   # x <= u        ==> t*x <= t*u
-               inst('mul_nonneg', t, rx), inst('mul_nonneg', t, u), inst('mul_nonneg', q, u)]
-    return hs
+        w = log.find('add', rv(1), t)
+        g = w and log.find('div', t, w.r)
+        return [inst('mul_nonneg', g.r, L), inst('quot_upper', g.e, w.r, t, rv(Fraction(1, 2))),
+                inst('mul_upper', g.r, L, rv(3), rv(2 ** 32))] if g else []
+    if M == 'DICE':
+        hf = log.find('div', t, rv(2))
+        return [inst('mul_nonneg', hf.r, L), inst('mul_upper', hf.r, L, rv(1), rv(2 ** 32))] if hf else []
+    if M == 'COSINE':
+        ra, rb = R_(l), R_(r)
+        im = log.find('imul', ra, rb)
+        flr = im and log.find('i2f', im.r)
+        sq = flr and log.find('sqrt', flr.r)
+        if not sq:
+            return []
+        return [inst('mul_nonneg', ra, rb), inst('mul_upper', ra, rb, rv(2 ** 31), rv(2 ** 31)),
+                inst('sqrt_upper', sq.e, flr.r, rv(2 ** 32)), inst('mul_nonneg', t, sq.r),
+                inst('mul_upper', t, sq.r, rv(1), rv(2 ** 33))]
+    return []
 
 
-def find_quot(log, sv):
-    """The exact quotient behind the float value sv = fl(q) recorded in the float log."""
-    for (r, e) in log.ops:
-        if r.eq(sv):
-            return e
-    raise KeyError('no float op produced %s' % sv)
+ALLM = ('JACCARD', 'COSINE', 'DICE', 'OVERLAP', 'EDIT_DISTANCE')
+PROPS = ('C01', 'C03', 'C04', 'C07', 'C13', 'C14')
 
-
-register(Q + 'get_prefix_length',
-         [PrefixLen('JACCARD')],
-         props=('C01', 'C03', 'C04', 'C13', 'C14'))
+register(Q + 'get_size_lower_bound', [SizeLowerBound(M) for M in ALLM], props=PROPS)
+register(Q + 'get_size_upper_bound', [SizeUpperBound(M) for M in ALLM], props=PROPS)
+register(Q + 'get_prefix_length', [PrefixLen(M) for M in ALLM], props=PROPS)
+register(Q + 'get_overlap_threshold', [OverlapThreshold(M) for M in ALLM], props=PROPS)
